@@ -92,10 +92,15 @@ impl<T> MemoryStore<T> {
         address: &Multiaddr,
         is_permanent: bool,
     ) -> bool {
+        if !self.records.contains_key(peer) {
+            // `LruCache::entry` may exceed the configured capacity by one, `insert` enforces it.
+            self.records
+                .insert(*peer, PeerRecord::new(self.config.record_capacity));
+        }
         let record = self
             .records
-            .entry(*peer)
-            .or_insert_with(|| PeerRecord::new(self.config.record_capacity));
+            .peek_mut(peer)
+            .expect("record to be present after insertion");
         let is_new = record.add_address(address, is_permanent);
         if is_new {
             self.push_event_and_wake(Event::PeerAddressAdded {
